@@ -52,6 +52,9 @@ func VerifSymTokens(k int) []lexer.Token {
 				to[j] = verifPredefKeys[i%len(verifPredefKeys)]
 			} else if n == "IDENT" && i == 2 {
 				to[j] = "start" // so that a specification with a start rule is among the sequences
+			} else if n == "STRING" && i%2 == 1 {
+				// string literals with escapes, as the scanner delivers them (the text between the quotes, verbatim)
+				to[j] = toks[i].Lexeme + []string{"\\\\", "\\\"x", "\\d"}[(i/2)%3]
 			} else {
 				to[j] = toks[i].Lexeme
 			}
@@ -75,6 +78,19 @@ func VerifBodyTokens(k int) []lexer.Token {
 	}
 	toks = append(toks, body...)
 	return append(toks, mk(";", 9))
+}
+
+// VerifOpenDirectiveTokens: the tokens `grammar IDENT @left TOKEN`, then k arbitrary tokens - a
+// specification that begins with a directive whose first handle is given, so that further handles (terminals,
+// rule handles) and the declarations after it are reached with few tokens.
+func VerifOpenDirectiveTokens(k int) []lexer.Token {
+	body := VerifSymTokens(k)
+	fixed := []string{"grammar", "IDENT", "@left", "TOKEN"}
+	toks := make([]lexer.Token, 0, k+4)
+	for i, kd := range fixed {
+		toks = append(toks, lexer.Token{Terminal: grammar.Terminal(kd), Lexeme: "f" + vitoa(i), Pos: lexer.Position{Filename: "f", Offset: 1000 + i, Line: 50 + i, Column: 3}})
+	}
+	return append(toks, body...)
 }
 
 var verifLexer lexer.Lexer
@@ -141,6 +157,12 @@ func harnessC11Generic() {
 func harnessC11GenericBody() {
 	k := verif.Len("k", 0, lrBodyK)
 	checkGenericTree(VerifBodyTokens(k))
+}
+
+// harnessC11GenericDirective: the same for a specification that begins with an open directive.
+func harnessC11GenericDirective() {
+	k := verif.Len("k", 0, lrBodyK+1)
+	checkGenericTree(VerifOpenDirectiveTokens(k))
 }
 
 func checkGenericTree(toks []lexer.Token) {
